@@ -1,17 +1,20 @@
 #!/usr/bin/env python3
 """Re-run the static checks against every kept seeded change and record which rules fire.
 
-usage: seeddetect.py [--root /repo] [ids...]
+usage: seeddetect.py [ids...]
 
-For each /verif/seeded/<id>/patch.diff: git apply it in --root (default /repo, which must be
-clean), run `bsvet -no-evidence all`, undo it (git checkout -- .), and update
+Works in a scratch worktree of /repo's HEAD (created under /tmp, removed at the end), never in
+/repo itself (the first confirmation of a seed, tools/seedcheck.py, is what applies it to /repo).
+For each /verif/seeded/<id>/patch.diff: git apply it there (falling back to a 3-way apply when a
+later fix: commit moved the context), run `bsvet -root <worktree> -no-evidence all`, hard-reset the
+worktree, and update
 /verif/seeded/<id>/meta.json ("checks": per property the rules that fired, "detected",
 "detected_by_own_property").  Writes /verif/seeded/INDEX.md.  Exits 1 if a seed is not
 detected by the check of its own property.
 """
 import argparse, fcntl, json, os, re, subprocess, sys
-ap=argparse.ArgumentParser(); ap.add_argument('--root',default='/repo'); ap.add_argument('ids',nargs='*')
-a=ap.parse_args()
+ap=argparse.ArgumentParser(); ap.add_argument('ids',nargs='*')
+a=ap.parse_args(); a.root='/tmp/wt-seeddetect'
 env=dict(os.environ,GOFLAGS='-mod=mod',GOPROXY='off',GOSUMDB='off',GOTOOLCHAIN='local')
 def sh(cmd,cwd=None):
     p=subprocess.run(cmd,shell=True,cwd=cwd,env=env,stdout=subprocess.PIPE,stderr=subprocess.STDOUT,text=True)
@@ -20,7 +23,7 @@ lock=open('/tmp/seedcheck.repo.lock','w'); fcntl.flock(lock,fcntl.LOCK_EX)
 rc,out=sh('./run.sh C01 quick >/dev/null 2>&1; true','/verif')   # make sure bin/bsvet is current
 seeds=sorted(d for d in os.listdir('/verif/seeded') if os.path.isfile(f'/verif/seeded/{d}/patch.diff'))
 if a.ids: seeds=[s for s in seeds if s in a.ids]
-rc,out=sh('git status --porcelain --untracked-files=no',a.root); assert out.strip()=='',(a.root+' dirty',out)
+sh('git -C /repo worktree remove --force '+a.root); rc,out=sh('git -C /repo worktree add --detach '+a.root+' HEAD'); assert rc==0,out
 rows=[]; missed=[]
 for sid in seeds:
     d=f'/verif/seeded/{sid}'; prop=sid.split('-')[0]
@@ -28,13 +31,15 @@ for sid in seeds:
     rc,out=sh(f'git apply {d}/patch.diff',a.root)
     if rc!=0:
         rc,out=sh(f'git apply -3 {d}/patch.diff',a.root)
+        rc2,out2=sh('git diff --name-only --diff-filter=U',a.root)
+        if out2.strip(): rc=1
     if rc!=0:
-        sh('git checkout -- .',a.root); meta['applies']=False; rows.append((sid,'patch no longer applies','','')); json.dump(meta,open(d+'/meta.json','w'),indent=1); continue
+        sh('git reset -q --hard HEAD',a.root); meta['applies']=False; rows.append((sid,'patch no longer applies','','')); json.dump(meta,open(d+'/meta.json','w'),indent=1); continue
     meta['applies']=True
     try:
         rc,out=sh(f'/verif/bin/bsvet -root {a.root} -no-evidence all','/verif')
     finally:
-        sh('git checkout -- . && git reset -q',a.root)
+        sh('git reset -q --hard HEAD',a.root)
     det={}
     cur=None
     for l in out.splitlines():
@@ -67,7 +72,7 @@ for sid in seeds:
     if prop not in res: missed.append(sid)
     rows.append((sid,'yes' if prop in res else ('other property only' if res else 'NO'),', '.join(res.get(prop,[])),'; '.join(f'{k}: {",".join(v)}' for k,v in sorted(res.items()) if k!=prop)))
     print(sid,res,flush=True)
-rc,out=sh('git status --porcelain --untracked-files=no',a.root); assert out.strip()=='',(a.root+' dirty after',out)
+sh('git -C /repo worktree remove --force '+a.root)
 fcntl.flock(lock,fcntl.LOCK_UN)
 if not a.ids:
     with open('/verif/seeded/INDEX.md','w') as f:
